@@ -16,6 +16,7 @@ import (
 	sgvalidate "github.com/google/go-sev-guest/validate"
 	tcpb "github.com/google/go-tdx-guest/proto/checkconfig"
 	tdvalidate "github.com/google/go-tdx-guest/validate"
+	spb "github.com/google/go-sev-guest/proto/sevsnp"
 	tpmpb "github.com/google/go-tpm-tools/proto/attest"
 	"google.golang.org/protobuf/proto"
 
@@ -169,6 +170,37 @@ func runC02(r *core.Run) {
 		}
 		return
 	}
+	// long-lived validator closures, one per (named count, expected digest class): the documented
+	// go-sev-guest usage keeps a validator and calls it for many reports
+	closures := map[string]func(*spb.Attestation, []byte) error{}
+	closure := func(named uint32, digClass string, digest []byte, getter bool) func(*spb.Attestation, []byte) error {
+		key := fmt.Sprintf("%d/%s/%v", named, digClass, getter)
+		if f, ok := closures[key]; ok {
+			r.Probe("closure-reused")
+			return f
+		}
+		o := &verify.Options{SNP: &verify.SNPOptions{ExpectedLaunchVMSAs: named}, ExpectedUefiSha384: digest, RootsOfTrust: roots, Now: now}
+		if getter {
+			o.Getter = net
+		}
+		closures[key] = verify.SNPValidateFunc(o)
+		return closures[key]
+	}
+	// prime them with one good report each, so whatever a validator remembers is in place
+	if !tdxWorld {
+		var first uint32
+		found := false
+		for c := range table {
+			if !found || c < first {
+				first, found = c, true
+			}
+		}
+		if found {
+			if err := closure(0, "none", nil, false)(SnpAttestation(table[first], nil), endorsement); err == nil {
+				r.Probe("closure-primed")
+			}
+		}
+	}
 	var samples []string
 	nCalls := 3 + r.Intn(6, "calls")
 	for i := 0; i < nCalls; i++ {
@@ -251,7 +283,7 @@ func runC02(r *core.Run) {
 			case 2:
 				digest, digClass = otherIs.Golden.Digest, "wrong"
 			}
-			entry := r.Intn(7, "snp-entry")
+			entry := r.Intn(9, "snp-entry")
 			var err error
 			name := ""
 			digestUsed := false
@@ -282,13 +314,11 @@ func runC02(r *core.Run) {
 					err = verify.SNP(g, &verify.SNPOptions{Measurement: meas, ExpectedLaunchVMSAs: named})
 				case 1:
 					name, digestUsed = "closure", true
-					f := verify.SNPValidateFunc(&verify.Options{SNP: &verify.SNPOptions{ExpectedLaunchVMSAs: named}, ExpectedUefiSha384: digest, RootsOfTrust: roots, Now: now})
-					err = f(SnpAttestation(meas, nil), endorsement)
+					err = closure(named, digClass, digest, false)(SnpAttestation(meas, nil), endorsement)
 				case 2:
 					name, digestUsed = "closure/getter", true
 					net.Objects = map[string][]byte{SnpURL(meas): endorsement}
-					f := verify.SNPValidateFunc(&verify.Options{SNP: &verify.SNPOptions{ExpectedLaunchVMSAs: named}, ExpectedUefiSha384: digest, RootsOfTrust: roots, Now: now, Getter: net})
-					err = f(SnpAttestation(meas, nil), nil)
+					err = closure(named, digClass, digest, true)(SnpAttestation(meas, nil), nil)
 				case 3:
 					name = "SevValidate/extras"
 					err = gcetcbendorsement.SevValidate(ctx, SnpAttestation(meas, endorsement), &gcetcbendorsement.SevValidateOptions{RootsOfTrust: roots, Now: now, ExpectedLaunchVmsas: named, BasePolicy: basePol, Overwrite: overwrite})
@@ -311,6 +341,15 @@ func runC02(r *core.Run) {
 						break
 					}
 					err = sgvalidate.SnpAttestation(SnpAttestation(meas, nil), vopts)
+				case 7:
+					// the caller names this endorsement; the attestation's certificate table carries
+					// ANOTHER validly signed endorsement (another firmware's): the named one decides
+					name = "SevValidate/given+other-table"
+					err = gcetcbendorsement.SevValidate(ctx, SnpAttestation(meas, otherIs.Bytes), &gcetcbendorsement.SevValidateOptions{Endorsement: le, RootsOfTrust: roots, Now: now, ExpectedLaunchVmsas: named})
+				case 8:
+					name, digestUsed = "closure/options+other-table", true
+					f := verify.SNPValidateFunc(&verify.Options{SNP: &verify.SNPOptions{ExpectedLaunchVMSAs: named}, ExpectedUefiSha384: digest, RootsOfTrust: roots, Now: now, Endorsement: le})
+					err = f(SnpAttestation(meas, nil), otherIs.Bytes)
 				default:
 					name = "cli/sev-validate"
 					io := newMemIO()
